@@ -60,6 +60,38 @@ def judgeAccept (issued presented : Binding) (altered : Bool) (accepted : Bool) 
   else if accepted then some ("binding", "cookie accepted for " ++ bindingBreach issued presented altered)
   else some ("rejects-valid", "the issued cookie is rejected for its own address, parameters and secret")
 
+/-! ### the secret a connection draws when none is configured -/
+
+/-- Config.CookieSecret: "the key must be random and secret, at least 16 bytes are recommended" -/
+def minRandomSecret : Nat := 16
+
+/-- number of positions at which two byte streams deliver the same byte -/
+def agreeing : Bytes → Bytes → Nat
+  | a :: as, b :: bs => (if a == b then 1 else 0) + agreeing as bs
+  | _, _ => 0
+
+/-- "When no secret is configured each server connection draws its own random one", judged for
+connections whose random sources are known byte streams (possibly delivered in short reads):
+every secret has at least the documented minimum of bytes and at least that many bytes were drawn
+from the connection's source for it; two connections whose sources agree in fewer positions than
+that minimum (so any 16 bytes taken from them differ) do not end up with the same secret.
+`lens` / `drawn` per connection, `sources` = the streams, `same i j` = the implementation's
+secrets of connections i and j are equal. -/
+def judgeRandomSecret (lens drawn : List Nat) (sources : List Bytes) (same : Nat → Nat → Bool) :
+    Option (String × String) :=
+  match (lens.zip drawn).find? (fun (l, d) => l < minRandomSecret || d < minRandomSecret) with
+  | some (l, d) =>
+    some ("secret-not-random", s!"a connection's cookie secret of {l} bytes was made from {d} byte(s) of its random source (at least {minRandomSecret} random bytes are required)")
+  | none =>
+    let idx := List.range sources.length
+    let clash := idx.findSome? fun i => idx.findSome? fun j =>
+      if i < j && agreeing (sources.getD i []) (sources.getD j []) < minRandomSecret && same i j
+      then some (i, j) else none
+    match clash with
+    | some (i, j) =>
+      some ("secret-shared", s!"connections {i} and {j} use the same cookie secret although their random sources agree in only {agreeing (sources.getD i []) (sources.getD j [])} byte(s)")
+    | none => none
+
 /-! ### what a server may do before a valid cookie -/
 
 /-- observation of the server's reaction to one received ClientHello (or datagram group) -/
